@@ -96,8 +96,23 @@ fn info_of(p: &Peer, name: &str) -> InstanceInformation {
     for port in &p.ports {
         i = i.with_port(*port);
     }
+    // The description of an instance is a value with public members: in half of the peers every attribute first gets a
+    // placeholder value through the builder and its real value through the public `attributes` map afterwards (the key
+    // set stays the same), and the last port is added through the public `ports` set. What is advertised is what the
+    // value holds when it is advertised.
+    let edited_later = (p.ips.len() + p.attrs.len()) % 2 == 1;
     for (k, v) in attr_map(p) {
-        i = i.with_attribute(k, v);
+        if edited_later {
+            i = i.with_attribute(k.clone(), Some("placeholder".to_string()));
+            i.attributes.insert(k, v);
+        } else {
+            i = i.with_attribute(k, v);
+        }
+    }
+    if edited_later {
+        if let Some(last) = p.ports.last() {
+            i.ports.insert(*last);
+        }
     }
     i
 }
